@@ -121,6 +121,26 @@ def run(ctx):
     except Skip:
         pass
 
+    # ---- the configured filter is the one consulted: the default `()` passes everything, Arc<T> and ChangeableFilterer forward, replace() stores
+    try:
+        unit = ctx.anchor_one("R01.1", "<() as Filterer>::check_event", [f for f in facts.fns_matching(r"^<\(\) as watchexec::filter::Filterer>::check_event$")])
+        ctx.require(pathx.desc(thir.peel(thir.root(unit))) == "Ok{0: True}", "R01.1", "default-filter-passes", "the default filterer `()` accepts every event", unit.loc(unit.line),
+                    detail=pathx.desc(thir.peel(thir.root(unit))), fail="the default filterer no longer returns Ok(true): without a configured filter every event is rejected")
+        cf = ctx.anchor_one("R01.1", "<ChangeableFilterer as Filterer>::check_event", facts.trait_methods("watchexec::filter::ChangeableFilterer", "Filterer", "check_event"))
+        d1 = pathx.desc(thir.peel(thir.root(cf)))
+        ctx.require(d1 in ("Filterer::check_event(Arc::as_ref(Changeable::get(self.0)), event, priority)", "Filterer::check_event(AsRef::as_ref(Changeable::get(self.0)), event, priority)"), "R01.1", "changeable-filter-forwards",
+                    "the configuration's filterer forwards (event, priority) to the filterer currently stored and returns its verdict", cf.loc(cf.line), detail=d1)
+        ar = [f for f in facts.fns_matching(r"^<alloc::sync::Arc<T> as watchexec::filter::Filterer>::check_event$")]
+        if ar:
+            d2 = pathx.desc(thir.peel(thir.root(ar[0])))
+            ctx.require(d2 in ("Filterer::check_event(Arc::as_ref(self), event, priority)", "Filterer::check_event(AsRef::as_ref(self), event, priority)"), "R01.1", "arc-filter-forwards", "Arc<T> forwards to T", ar[0].loc(ar[0].line), detail=d2)
+        rp = ctx.anchor_fn("R01.1", "watchexec::filter::ChangeableFilterer::replace")
+        rc = [[pathx.desc(a) for a in nd["a"]] for c, nd in thir.calls_in(thir.root(rp)) if strip_generics(c).endswith("Changeable::replace")]
+        ctx.require(rc == [["self.0", "Arc::new(new)"]], "R01.1", "filter-replace-stores", "ChangeableFilterer::replace stores the new filterer", rp.loc(rp.line), detail=str(rc),
+                    fail="Config::filterer(..) has no effect: ChangeableFilterer::replace does not store the new filterer (%s)" % rc)
+    except Skip:
+        pass
+
     # ---- R01.9 shape of filesystem events
     try:
         pe = ctx.anchor_fn("R01.9", "watchexec::sources::fs::process_event")
